@@ -116,7 +116,7 @@ EqEquivalence == Pair =>
 
 \* labels (pointer identity / sharing), spare capacity, insertion order: irrelevant
 EqInsensitive == Pair =>
-  /\ (P[j].kind = "same" /\ P[j].of = i) => E(i, j)
+  /\ (P[j].kind \in {"same", "twin"} /\ P[j].of = i) => E(i, j)
   /\ E(i, j) = Eq(NoEnv, T, X(i), Relabel(X(j), "z:"))
   /\ (P[j].kind = "same" /\ P[j].of = i /\ P[j].tag # "fzn") => Identical(NoEnv, T, X(i), X(j))
 
@@ -149,10 +149,10 @@ HashImplFunction == Pair => (Identical(NoEnv, T, X(i), X(j)) => H(i) = H(j))
 
 -----------------------------------------------------------------------------
 LeadKinds ==
-  (IF \E a, b \in N : EI(a, b) # E(a, b) THEN {"EqImpl#Eq"} ELSE {}) \cup
-  (IF \E a, b \in N : E(a, b) /\ H(a) # H(b) THEN {"Eq-but-HashImpl-differs"} ELSE {}) \cup
-  (IF \E a, b \in N : EI(a, b) /\ ~E(a, b) /\ H(a) # H(b) THEN {"EqImpl-not-Eq-and-HashImpl-differs"} ELSE {}) \cup
-  (IF \E a, b \in N : (C(a, b) = 0) # E(a, b) THEN {"CmpImpl0#Eq"} ELSE {})
+  (IF \E a, b \in N : EI(a, b) # E(a, b) THEN " EqImpl#Eq" ELSE "") \o
+  (IF \E a, b \in N : E(a, b) /\ H(a) # H(b) THEN " Eq-but-HashImpl-differs" ELSE "") \o
+  (IF \E a, b \in N : EI(a, b) /\ ~E(a, b) /\ H(a) # H(b) THEN " EqImpl-not-Eq-and-HashImpl-differs" ELSE "") \o
+  (IF \E a, b \in N : (C(a, b) = 0) # E(a, b) THEN " CmpImpl0#Eq" ELSE "")
 
-Leads == First => (LeadKinds = {} \/ PrintT(<<"LEAD", Cases[ti].id, LeadKinds>>))
+Leads == First => (LeadKinds = "" \/ PrintT("LEAD " \o Cases[ti].id \o LeadKinds))
 =============================================================================
